@@ -550,6 +550,7 @@ type State struct {
 	defers []*deferEntry
 	held   map[string]Term // lock id -> mode term (0 none, 1 R, 2 W); ghost
 	acquired map[string]Term // mutexes locked on this path by the function under verification (deferred-unlock rule)
+	acqWhen  map[string]Term // path condition under which each of them was locked
 }
 
 func (e *Engine) newState() *State {
@@ -575,6 +576,10 @@ func (s *State) clone() *State {
 		c.acquired = make(map[string]Term, len(s.acquired))
 		for k, v := range s.acquired {
 			c.acquired[k] = v
+		}
+		c.acqWhen = make(map[string]Term, len(s.acqWhen))
+		for k, v := range s.acqWhen {
+			c.acqWhen[k] = v
 		}
 	}
 	return c
@@ -871,8 +876,18 @@ func (e *Engine) mergeStates(conds []Term, sts []*State) *State {
 		for k, v := range s.acquired {
 			if m.acquired == nil {
 				m.acquired = map[string]Term{}
+				m.acqWhen = map[string]Term{}
 			}
 			m.acquired[k] = v
+			w := s.acqWhen[k]
+			if w.S == "" {
+				w = True
+			}
+			if old, ok := m.acqWhen[k]; ok {
+				m.acqWhen[k] = Or(old, w)
+			} else {
+				m.acqWhen[k] = w
+			}
 		}
 	}
 	// defers: union ordered by push order
